@@ -31,6 +31,21 @@ def make_case(seed):
                 # the documented ambiguity of plain diff -u: '+++ ' content looks like a header
                 h.lines = [(k, t if not (k == '+' and t.startswith('++ ')) else 'pp' + t[2:]) for k, t in h.lines]
     opts, meta = gen.unified_options(rng)
+    mll = meta['max_line_length']
+    if mll and rng.random() < 0.6:
+        # lines around and beyond the maximum line length (truncated with a visible mark, only beyond it)
+        for s in d.sections:
+            for h in s.hunks:
+                new = []
+                for k, t in h.lines:
+                    if k in '+- ' and rng.random() < 0.3:
+                        want = mll + rng.choice([-3, -2, -1, 0, 1, 2, 5, 40, 400])
+                        filler = rng.choice(['w0rd ', 'x', '日本 ', 'ab\u0301c ', 'é-'])
+                        t = (t.replace('\t', ' ') + ' ' + filler * 600)[:max(1, want)]
+                    if fmt in ('plain', 'plainr') and k == '+' and t.startswith('++ '):
+                        t = 'pp' + t[2:]
+                    new.append((k, t))
+                h.lines = new
     mode = 'pty' if rng.random() < 0.15 else 'pipe'
     if mode == 'pty' and '--dark' not in opts and '--light' not in opts:
         opts['--dark'] = True
@@ -359,6 +374,8 @@ def run_item(item):
 
 def floors(ctx, agg):
     p = []
+    if agg.counters.get('truncated_lines', 0) < 500:
+        p.append('fewer than 500 lines truncated at the maximum line length')
     if agg.counters.get('lines_matched', 0) < 1000:
         p.append('fewer than 1000 hunk lines matched')
     if len(agg.sets.get('section_kinds', ())) < 8:
